@@ -25,6 +25,8 @@ type value struct {
 	coins  []*value          // tCoins
 	fields map[string]*value // opaque record: fields assigned by the code (overlay on the stored record)
 	unset  bool              // declared by `var x T` and not yet assigned
+	cmpL   string            // result of big.Int Cmp: the two operands (term is Z.sgn (cmpL - cmpR))
+	cmpR   string
 }
 
 type out struct{ term, label string }
@@ -32,6 +34,7 @@ type out struct{ term, label string }
 type env struct {
 	vars map[string]*value
 	outs []out
+	neff int // effect calls made so far on this path (distinguishes state reads before / after them)
 }
 
 func cloneValue(v *value, seen map[*value]*value) *value {
@@ -63,7 +66,7 @@ func cloneValue(v *value, seen map[*value]*value) *value {
 }
 
 func (e *env) clone() *env {
-	c := &env{vars: map[string]*value{}, outs: append([]out(nil), e.outs...)}
+	c := &env{vars: map[string]*value{}, outs: append([]out(nil), e.outs...), neff: e.neff}
 	seen := map[*value]*value{}
 	for n, v := range e.vars {
 		c.vars[n] = cloneValue(v, seen)
@@ -100,6 +103,7 @@ type kctx struct {
 	pkg         *pkgDecls // declarations of the package the kernel lives in (for inlining helpers)
 	recvType    string    // receiver type of the kernel function
 	inlineStack []string
+	matLog      []*value // values whose input was materialised (undone when a trial evaluation is rolled back)
 }
 
 func (k *kctx) refuse(n ast.Node, f string, a ...interface{}) {
@@ -230,6 +234,7 @@ func (k *kctx) term(v *value, at ast.Node) string {
 			k.refuse(at, "internal: scalar without term or provenance")
 		}
 		v.term = k.in(v.prov, v.t, v.src)
+		k.matLog = append(k.matLog, v)
 	}
 	return v.term
 }
@@ -401,7 +406,28 @@ func (k *kctx) expr(x ast.Expr, e *env) *value {
 		return k.binary(x, e)
 	case *ast.CallExpr:
 		return k.call(x, e, 1)[0]
-	case *ast.CompositeLit, *ast.FuncLit, *ast.IndexExpr, *ast.TypeAssertExpr, *ast.SliceExpr:
+	case *ast.CompositeLit:
+		if v := k.coinLit(x, e); v != nil {
+			return v
+		}
+		return &value{t: tOpaque, prov: k.prov(x, e), src: k.src(x)}
+	case *ast.IndexExpr:
+		// coins[i] of a coin list built in this function
+		if id, ok := x.X.(*ast.Ident); ok {
+			if v, ok := e.vars[id.Name]; ok && v.t == tCoins {
+				lit, isLit := x.Index.(*ast.BasicLit)
+				if !isLit || lit.Kind != token.INT {
+					k.refuse(x, "a coin list is indexed by something other than an integer literal")
+				}
+				i, err := strconv.Atoi(lit.Value)
+				if err != nil || i < 0 || i >= len(v.coins) {
+					k.refuse(x, "index %s outside a coin list of %d elements (panics)", lit.Value, len(v.coins))
+				}
+				return v.coins[i]
+			}
+		}
+		return &value{t: tOpaque, prov: k.prov(x, e), src: k.src(x)}
+	case *ast.FuncLit, *ast.TypeAssertExpr, *ast.SliceExpr:
 		return &value{t: tOpaque, prov: k.prov(x, e), src: k.src(x)}
 	}
 	k.refuse(x, "unsupported expression form %T", x)
@@ -471,10 +497,16 @@ func (k *kctx) binary(x *ast.BinaryExpr, e *env) *value {
 	}
 	l, r := k.expr(x.X, e), k.expr(x.Y, e)
 	scalar := func(v *value) bool { return isZ(v.t) }
+	if c, ok := cmpWithZero(l, r, x.Op); ok {
+		return &value{t: tBool, term: c}
+	}
 	switch x.Op {
 	case token.EQL, token.NEQ:
 		var c string
 		switch {
+		case bigNil(l, r) || bigNil(r, l): // did the balance query give a usable answer: an external fact
+			p := provOf(l) + " == " + provOf(r)
+			c = k.in(p, tBool, "eq_"+lastSeg(k.src(x.X))+"_"+lastSeg(k.src(x.Y)))
 		case scalar(l) && scalar(r):
 			c = "(" + k.term(l, x.X) + " =? " + k.term(r, x.Y) + ")"
 		case l.t == tBool && r.t == tBool:
@@ -514,6 +546,46 @@ func (k *kctx) binary(x *ast.BinaryExpr, e *env) *value {
 	}
 	k.refuse(x, "unsupported binary operator %s", x.Op)
 	return nil
+}
+
+// bigNil: a *big.Int read from outside compared with nil
+func bigNil(a, b *value) bool { return a.t == tBig && a.oracle && b.t == tNil }
+
+// cmpWithZero: `x.Cmp(y) <op> 0` (or `0 <op> x.Cmp(y)`) is the comparison of x and y itself.
+func cmpWithZero(l, r *value, op token.Token) (string, bool) {
+	isZero := func(v *value) bool { return v.t == tNum && v.term == "0" }
+	if r.cmpL != "" && isZero(l) {
+		l, r = r, l
+		switch op {
+		case token.LSS:
+			op = token.GTR
+		case token.GTR:
+			op = token.LSS
+		case token.LEQ:
+			op = token.GEQ
+		case token.GEQ:
+			op = token.LEQ
+		}
+	}
+	if l.cmpL == "" || !isZero(r) {
+		return "", false
+	}
+	a, b := l.cmpL, l.cmpR
+	switch op {
+	case token.EQL:
+		return "(" + a + " =? " + b + ")", true
+	case token.NEQ:
+		return "(negb (" + a + " =? " + b + "))", true
+	case token.LSS:
+		return "(" + a + " <? " + b + ")", true
+	case token.LEQ:
+		return "(" + a + " <=? " + b + ")", true
+	case token.GTR:
+		return "(" + b + " <? " + a + ")", true
+	case token.GEQ:
+		return "(" + b + " <=? " + a + ")", true
+	}
+	return "", false
 }
 
 func lastSeg(s string) string {
@@ -575,6 +647,7 @@ func (k *kctx) effect(name string, x *ast.CallExpr, e *env, want int) []*value {
 		v := k.expr(a, e)
 		k.output(v, fmt.Sprintf("%s.arg%d", name, i), e, a)
 	}
+	e.neff++
 	return opaqueResults(k.prov(x, e), name, nil, want)
 }
 
@@ -616,6 +689,10 @@ func (k *kctx) call(x *ast.CallExpr, e *env, want int) []*value {
 			return one(&value{t: tNum, term: k.arg(x, 0, e, tNum)})
 		case "panic":
 			k.refuse(x, "panic in expression position")
+		case "new":
+			if len(x.Args) == 1 && k.canonType(x.Args[0]) == "big.Int" {
+				return one(&value{t: tBig, term: "0"})
+			}
 		}
 		if effects[f.Name] {
 			return k.effect(f.Name, x, e, want)
@@ -677,6 +754,8 @@ func (k *kctx) pkgCall(path, alias, name string, x *ast.CallExpr, e *env, want i
 		return one(&value{t: tDec, term: "(SdkDec.of_int " + k.arg(x, 0, e, tNum) + ")"})
 	case "sdkmath.LegacyNewDecFromInt":
 		return one(&value{t: tDec, term: "(SdkDec.of_int " + k.arg(x, 0, e, tInt) + ")"})
+	case "big.NewInt":
+		return one(&value{t: tBig, term: k.arg(x, 0, e, tNum)})
 	case "sdk.NewCoin":
 		if len(x.Args) != 2 {
 			k.refuse(x, "sdk.NewCoin with %d arguments", len(x.Args))
@@ -702,8 +781,8 @@ func (k *kctx) pkgCall(path, alias, name string, x *ast.CallExpr, e *env, want i
 		}
 		return one(v)
 	}
-	if path == "sdkmath" {
-		k.refuse(x, "sdkmath.%s is not in the translator's table", name)
+	if path == "sdkmath" || path == "big" {
+		k.refuse(x, "%s.%s is not in the translator's table", path, name)
 	}
 	if effects[name] {
 		return k.effect(name, x, e, want)
@@ -816,6 +895,32 @@ func (k *kctx) method(recv *value, name string, x *ast.CallExpr, e *env, want in
 		}
 		k.refuse(x, "time.Time method %s is not in the translator's table", name)
 	case tBig:
+		// math/big never overflows: plain Z arithmetic, no option monad
+		switch name {
+		case "Add", "Sub", "Mul":
+			// z.Add(x, y) stores x+y in z and returns z: translated only when z is a fresh value
+			// (big.NewInt(n) / new(big.Int)), so that no variable is changed in place
+			if sel, ok := x.Fun.(*ast.SelectorExpr); !ok || !k.freshBig(sel.X, e) {
+				k.refuse(x, "big.Int.%s on a receiver that is not big.NewInt(..) / new(big.Int): in-place update of a variable is not translated", name)
+			}
+			if len(x.Args) != 2 {
+				k.refuse(x, "big.Int.%s with %d arguments", name, len(x.Args))
+			}
+			a, b := k.arg(x, 0, e, tBig), k.arg(x, 1, e, tBig)
+			op := map[string]string{"Add": "+", "Sub": "-", "Mul": "*"}[name]
+			return one(&value{t: tBig, term: "(" + a + " " + op + " " + b + ")"})
+		case "Cmp":
+			a := k.term(recv, x)
+			if len(x.Args) != 1 {
+				k.refuse(x, "big.Int.Cmp with %d arguments", len(x.Args))
+			}
+			b := k.arg(x, 0, e, tBig)
+			return one(&value{t: tNum, term: "(Z.sgn (" + a + " - " + b + "))", cmpL: a, cmpR: b})
+		case "Sign":
+			return one(&value{t: tNum, term: "(Z.sgn " + k.term(recv, x) + ")"})
+		case "String", "SetUint64", "SetInt64", "SetString", "SetBytes":
+			return opaque() // conversions into a big.Int stay opaque values (refused if computed with)
+		}
 		k.refuse(x, "big.Int method %s is not in the translator's table", name)
 	case tNum, tDur, tBool:
 		k.refuse(x, "method %s on a value of type %s", name, recv.t)
@@ -837,6 +942,17 @@ func (k *kctx) method(recv *value, name string, x *ast.CallExpr, e *env, want in
 			return one(&value{t: tCoin, denom: recv.denom, amt: &value{t: tInt, term: t}, src: "coin"})
 		case "IsPositive", "IsNegative", "IsZero":
 			return one(k.signTest(k.coinAmt(recv), name, x))
+		case "IsEqual", "Equal":
+			// the amounts; like Coin.Add / Coin.Sub the (symbolic) denominations are not compared
+			if len(x.Args) != 1 {
+				k.refuse(x, "Coin.%s with %d arguments", name, len(x.Args))
+			}
+			o := k.expr(x.Args[0], e)
+			if o.t != tCoin {
+				k.refuse(x.Args[0], "Coin.%s of a value of type %s", name, o.t)
+			}
+			a, b := k.term(k.coinAmt(recv), x), k.term(k.coinAmt(o), x.Args[0])
+			return one(&value{t: tBool, term: "(" + a + " =? " + b + ")"})
 		case "String":
 			return opaque()
 		}
@@ -862,7 +978,118 @@ func (k *kctx) method(recv *value, name string, x *ast.CallExpr, e *env, want in
 		k.inline(fd, recv, x, e)
 		return opaqueResults(k.prov(x, e), name, nil, want)
 	}
-	return opaqueResults(k.prov(x, e), lastSeg(k.src(x.Fun)), opaqueMethods[name], want)
+	p := k.prov(x, e)
+	if stateReads[name] {
+		p += "@" + strconv.Itoa(e.neff)
+	}
+	k.outParams(x, e, p)
+	return opaqueResults(p, lastSeg(k.src(x.Fun)), opaqueMethods[name], want)
+}
+
+// outParams: `var r T; f(&r, ...)` - a declared, never assigned variable handed by address to an opaque call is
+// what that call writes: afterwards it is read from the call (provenance <call>&<argument index>), not from zero(T).
+func (k *kctx) outParams(x *ast.CallExpr, e *env, callProv string) {
+	for i, a := range x.Args {
+		u, ok := a.(*ast.UnaryExpr)
+		if !ok || u.Op != token.AND {
+			continue
+		}
+		id, ok := u.X.(*ast.Ident)
+		if !ok {
+			continue
+		}
+		if v, ok := e.vars[id.Name]; ok && v.t == tOpaque && v.fields == nil && strings.HasPrefix(v.prov, "zero(") {
+			e.vars[id.Name] = &value{t: tOpaque, prov: callProv + "&" + strconv.Itoa(i), src: id.Name}
+		}
+	}
+}
+
+// canonType: a type expression with the package alias replaced by the canonical one
+func (k *kctx) canonType(t ast.Expr) string {
+	s := k.src(t)
+	if i := strings.Index(s, "."); i > 0 {
+		alias := strings.TrimPrefix(s[:i], "*")
+		if p, ok := k.imports[alias]; ok {
+			s = strings.Replace(s, alias+".", p+".", 1)
+		}
+	}
+	return s
+}
+
+// freshBig: big.NewInt(n) or new(big.Int) written in place
+func (k *kctx) freshBig(x ast.Expr, e *env) bool {
+	for {
+		p, ok := x.(*ast.ParenExpr)
+		if !ok {
+			break
+		}
+		x = p.X
+	}
+	c, ok := x.(*ast.CallExpr)
+	if !ok {
+		return false
+	}
+	switch f := c.Fun.(type) {
+	case *ast.Ident:
+		_, shadow := e.vars[f.Name]
+		return !shadow && f.Name == "new" && len(c.Args) == 1 && k.canonType(c.Args[0]) == "big.Int"
+	case *ast.SelectorExpr:
+		if id, ok := f.X.(*ast.Ident); ok {
+			if p, ok := k.pkgOf(id, e); ok {
+				return p == "big" && f.Sel.Name == "NewInt"
+			}
+		}
+	}
+	return false
+}
+
+// coinLit: sdk.Coins{c1, ...} / sdk.Coin{Denom: d, Amount: a} (a literal does not validate, unlike sdk.NewCoin)
+func (k *kctx) coinLit(x *ast.CompositeLit, e *env) *value {
+	if x.Type == nil {
+		return nil
+	}
+	switch k.canonType(x.Type) {
+	case "sdk.Coins":
+		v := &value{t: tCoins, src: "coins", coins: []*value{}}
+		for _, el := range x.Elts {
+			if _, kv := el.(*ast.KeyValueExpr); kv {
+				return nil
+			}
+			c := k.expr(el, e)
+			if c.t != tCoin {
+				k.refuse(el, "sdk.Coins literal with an element of type %s", c.t)
+			}
+			v.coins = append(v.coins, c)
+		}
+		return v
+	case "sdk.Coin":
+		var denom, amt *value
+		for _, el := range x.Elts {
+			kv, ok := el.(*ast.KeyValueExpr)
+			if !ok {
+				k.refuse(el, "sdk.Coin literal without field names")
+			}
+			switch k.src(kv.Key) {
+			case "Denom":
+				denom = k.expr(kv.Value, e)
+			case "Amount":
+				amt = k.expr(kv.Value, e)
+			default:
+				k.refuse(el, "unknown field of sdk.Coin")
+			}
+		}
+		if denom == nil || amt == nil {
+			k.refuse(x, "sdk.Coin literal without Denom or Amount")
+		}
+		if amt.t != tInt {
+			k.refuse(x, "sdk.Coin literal with an amount of type %s", amt.t)
+		}
+		if amt.term == "" {
+			k.term(amt, x)
+		}
+		return &value{t: tCoin, denom: provOf(denom), amt: amt, src: "coin"}
+	}
+	return nil
 }
 
 // inline a small pointer-receiver method that only assigns fields of its receiver (EpochInfo.StartInitialEpoch / EndEpoch).
@@ -900,7 +1127,7 @@ func (k *kctx) store(lhs ast.Expr, v *value, e *env) {
 		if l.Name == "_" {
 			return
 		}
-		if (isZ(v.t) || v.t == tBool) && !v.oracle && v.term != "" && !isAtom(v.term) {
+		if (isZ(v.t) || v.t == tBool) && !v.oracle && v.term != "" && !isAtom(v.term) && v.cmpL == "" {
 			n := k.uniq(l.Name)
 			k.emit("let " + n + " := " + v.term + " in")
 			v = &value{t: v.t, term: n}
@@ -1151,7 +1378,7 @@ func (k *kctx) oracleCond(c ast.Expr, e *env) (desc string, nilCheck bool, ok bo
 			return "", false, false
 		}
 		v := k.expr(c, e)
-		if v.t == tBool && v.oracle {
+		if v.t == tBool && v.oracle && !modelledBools[lastSeg(v.prov)] {
 			return pre + v.prov, false, true
 		}
 	case *ast.BinaryExpr:
@@ -1160,17 +1387,27 @@ func (k *kctx) oracleCond(c ast.Expr, e *env) (desc string, nilCheck bool, ok bo
 		}
 		n := len(k.lines)
 		save := k.saveInputs()
+		nmat := len(k.matLog)
 		l, r := k.expr(x.X, e), k.expr(x.Y, e)
 		if len(k.lines) != n {
 			k.refuse(x, "operand of a string/nil comparison can panic")
 		}
 		k.restoreInputs(save)
-		if isZ(l.t) || isZ(r.t) || l.t == tBool || r.t == tBool {
-			return "", false, false
+		for _, v := range k.matLog[nmat:] { // this was a trial evaluation: forget the inputs it created
+			if _, kept := k.inputs[v.prov]; !kept {
+				v.term = ""
+			}
 		}
+		k.matLog = k.matLog[:nmat]
 		op := " == "
 		if x.Op == token.NEQ {
 			op = " != "
+		}
+		if bigNil(l, r) || bigNil(r, l) { // no usable answer to a balance query: listed in gen_f_assumes
+			return pre + "(" + provOf(l) + op + provOf(r) + ")", false, true
+		}
+		if isZ(l.t) || isZ(r.t) || l.t == tBool || r.t == tBool {
+			return "", false, false
 		}
 		return pre + "(" + provOf(l) + op + provOf(r) + ")", l.t == tNil || r.t == tNil, true
 	}
@@ -1405,6 +1642,42 @@ func (k *kctx) block(stmts []ast.Stmt, e *env, next cont) {
 // a deferred call is skipped only when everything it calls is telemetry (or reads used by telemetry)
 func (k *kctx) harmlessDefer(s *ast.DeferStmt) bool {
 	txt := k.src(s.Call)
+	if id, ok := s.Call.Fun.(*ast.Ident); ok && !strings.Contains(txt, "telemetry.") {
+		// defer f(args) with f a function of the same package: skipped when f's body is telemetry only -
+		// no effect call, nothing assigned except its own new locals, no address taken, no nested defer / go
+		fd := k.localFunc(id.Name)
+		if fd == nil || fd.Recv != nil || !strings.Contains(k.src(fd.Body), "telemetry.") {
+			return false
+		}
+		for _, a := range s.Call.Args { // the arguments are evaluated at the defer statement: reads only
+			if containsAnyCall(a) {
+				return false
+			}
+		}
+		ok := true
+		ast.Inspect(fd.Body, func(n ast.Node) bool {
+			switch n := n.(type) {
+			case *ast.CallExpr:
+				if effects[lastSeg(k.src(n.Fun))] {
+					ok = false
+				}
+			case *ast.AssignStmt:
+				if n.Tok != token.DEFINE {
+					ok = false
+				}
+			case *ast.UnaryExpr:
+				if n.Op == token.AND {
+					if _, lit := n.X.(*ast.CompositeLit); !lit {
+						ok = false
+					}
+				}
+			case *ast.IncDecStmt, *ast.DeferStmt, *ast.GoStmt, *ast.SendStmt:
+				ok = false
+			}
+			return ok
+		})
+		return ok
+	}
 	if !strings.Contains(txt, "telemetry.") {
 		return false
 	}
@@ -1419,6 +1692,17 @@ func (k *kctx) harmlessDefer(s *ast.DeferStmt) bool {
 		return ok
 	})
 	return ok
+}
+
+func containsAnyCall(n ast.Node) bool {
+	found := false
+	ast.Inspect(n, func(x ast.Node) bool {
+		if _, ok := x.(*ast.CallExpr); ok {
+			found = true
+		}
+		return !found
+	})
+	return found
 }
 
 func (k *kctx) success(e *env, extra []out) {
